@@ -171,8 +171,7 @@ structure Cfg where
 /-- what a spawned task other than the derived's and the effect's does -/
 inductive AwKind where
   | awaiter   -- `spawn_local(async move { let v = d.await; record(v) })`
-  | reader    -- spawned by a synchronous read under a `SuspenseContext`: `ready().await; handle.release()`
-  | reader0   -- such a task after its reader was disposed: its handle has been released already
+  | reader    -- spawned by a synchronous read under a `SuspenseContext`: `ready().await; drop(handle)`
   | saw       -- an awaiter under the boundary (`Suspend`-like: `ScopedFuture` in a reader's owner, aborted
               -- when the reader is disposed): every poll of its `.await` registers the boundary
   | tick      -- `Executor::tick()` of a local resource's fetch: `tx.send(())`
@@ -552,25 +551,22 @@ def bread (s : State) : State :=
     { s with pending := s.pending + 1, aws := s.aws ++ [{ kind := .reader }], susp := s.susp + 1,
              readSince := true, noReader := false }
 
-/-- what disposing its reader does to a task: a reader task's handle is released (it goes on waiting for
-`ready()`), an awaiter under the boundary is aborted (its `AbortHandle` wakes it) -/
+/-- what disposing its reader does to a task: an awaiter under the boundary is aborted (its `AbortHandle`
+wakes it); the task a synchronous read spawned keeps its handle until `ready()` resolves (the server
+rendering of `<Suspense/>` relies on that: `dry_resolve` reads under owners it drops at once) -/
 def dropAw (a : Aw) : Aw :=
-  if a.kind = .reader then { a with kind := .reader0 }
-  else if a.kind = .saw ∧ a.done = false then { a with aborted := true, woken := true }
-  else a
+  if a.kind = .saw ∧ a.done = false then { a with aborted := true, woken := true } else a
 
 /-- every reader under the boundary is disposed: their interests end (`SuspenseInterest`, `on_cleanup`):
-registrations not yet taken are dead, task ids held for the fetch in flight and the handles of synchronous
-reads are released at once -/
+registrations not yet taken are dead, task ids held for the fetch in flight are released at once -/
 def bdrop (s : State) : State :=
-  { s with aws := s.aws.map dropAw, pending := 0, susp := 0, idsHeld := 0, readSince := false,
+  { s with aws := s.aws.map dropAw, pending := s.pending - s.idsHeld, susp := 0, idsHeld := 0,
            coveredCur := false, noReader := true }
 
 /-- before "a Suspense boundary must not wait … on behalf of a reader that is gone": nothing connected a
 registration to its reader; only the awaiting futures go -/
 def bdropOld (s : State) : State :=
-  { s with aws := s.aws.map fun a => if a.kind = .saw ∧ a.done = false then { a with aborted := true, woken := true } else a,
-           noReader := true }
+  { s with aws := s.aws.map dropAw, noReader := true }
 
 /-! ## executor -/
 
@@ -646,6 +642,10 @@ def lastSeen (s : State) : Option (Option Val) := s.eLog.getLast?.map (·.1)
 def awsResumed (s : State) : Bool :=
   s.aws.all fun a => !(a.kind == .awaiter || a.kind == .saw) || a.aborted || (a.done && a.result.isSome)
 
+/-- tasks spawned by synchronous reads under the boundary that still wait for `ready()`: each holds one of the
+boundary's task handles -/
+def liveReaders (l : List Aw) : Nat := (l.filter fun a => decide (a.kind = .reader) && !a.done).length
+
 /-- the boundary has read from the load in flight (and no manual write interfered) -/
 def suspCovered (s : State) : Bool :=
   decide (s.pc = .fetching) && !s.msetDuring && (s.coveredCur || s.readSince)
@@ -654,7 +654,7 @@ def oracle (s : State) : Option String :=
   if s.panicked then some "panic"
   else if (readyList s).isEmpty && suspCovered s && s.pending == 0 then some "suspense-missed"
   else if (readyList s).isEmpty && s.pc != .fetching && s.pending != 0 then some "suspense-stuck"
-  else if s.noReader && s.pending != 0 then some "suspense-stale"
+  else if s.noReader && decide (liveReaders s.aws < s.pending) then some "suspense-stale"
   else if !settled s then none
   else if s.loading then some "loading-stuck"
   else if s.value ≠ expected s then some (if s.stolen then "dirty-stolen" else "stale")
